@@ -1,7 +1,17 @@
-// keep only the lackey lines between marker stores (marker address = argv[1], hex)
+// keep only the lackey data-access lines between marker stores.
+//   argv[1] (hex) = address of MARK : region in which EVERY load/store is kept (as before);
+//   optional argv[2..4] (hex) = address of MARKT, start and end of the .text section of the (statically linked, -no-pie) driver:
+//   in a region delimited by stores to MARKT a data access is kept only if the instruction that made it (the last "I" line of
+//   lackey) lies in [argv[3], argv[4]) — this drops what libc does on the library's behalf (the memset of a calloc'ed temporary)
+//   for kernels that allocate their own temporaries inside the marked region.
 #include <stdio.h>
 #include <stdlib.h>
 #include <string.h>
-int main(int argc,char**argv){ unsigned long mark=strtoul(argv[1],0,16); char l[256]; int on=0;
-  while(fgets(l,sizeof l,stdin)){ if(l[0]!=' ') continue; if(l[1]!='S'&&l[1]!='L'&&l[1]!='M') continue;
-    unsigned long a=strtoul(l+3,0,16); if(a==mark){ on=!on; fputs(on?"BEGIN\n":"END\n",stdout); continue;} if(on) fputs(l,stdout);} return 0; }
+int main(int argc,char**argv){ unsigned long mark=strtoul(argv[1],0,16),markt=0,lo=0,hi=~0UL; char l[256]; int on=0, ok=1, tmode=0;
+  if(argc>4){ markt=strtoul(argv[2],0,16); lo=strtoul(argv[3],0,16); hi=strtoul(argv[4],0,16); }
+  while(fgets(l,sizeof l,stdin)){
+    if(l[0]=='I'){ unsigned long a=strtoul(l+3,0,16); ok=(a>=lo&&a<hi); continue; }
+    if(l[0]!=' ') continue; if(l[1]!='S'&&l[1]!='L'&&l[1]!='M') continue;
+    unsigned long a=strtoul(l+3,0,16);
+    if(a==mark||(markt&&a==markt)){ on=!on; tmode=(a==markt); fputs(on?"BEGIN\n":"END\n",stdout); continue;}
+    if(on&&(ok||!tmode)) fputs(l,stdout);} return 0; }
